@@ -46,6 +46,7 @@ class RtContract:
         self.gen = kw.get("gen")
         self.generator = kw.get("generator", False)
         self.serves = kw.get("serves", [])
+        self.result_is = kw.get("result_is")
         self.trusted = kw.get("trusted", False)
         self.abstract = kw.get("abstract", False)
 
@@ -243,6 +244,13 @@ def check_one(c: RtContract, args: tuple, only_serves=None):
         for w, rc in zip(whens, c.raises):
             if w:
                 failures.append({"clause": "must-raise:" + rc["exc"], "detail": "returned normally"})
+        if c.result_is is not None:
+            try:
+                want = call_lambda(c.result_is, env)
+                if want != result:
+                    failures.append({"clause": "result", "detail": f"result {result!r:.200} differs from the specified {want!r:.200}"})
+            except Exception as e:
+                failures.append({"clause": "result", "detail": f"result specification raised {type(e).__name__}: {e}"})
         for cl in c.ensures:
             if not serves_ok(cl):
                 continue
